@@ -1,7 +1,7 @@
 #pragma once
 #include <stddef.h>
 // C16 — XML reader under a simulated file layer. Shared between the halves.
-enum { A16_FAULT_NONE = 0, A16_FAULT_SHORT_READ, A16_FAULT_FLIP, A16_FAULT_DROP, A16_FAULT_DUP, A16_FAULT_NUL, A16_FAULT_OPEN, A16_RAW };
+enum { A16_FAULT_NONE = 0, A16_FAULT_SHORT_READ, A16_FAULT_FLIP, A16_FAULT_DROP, A16_FAULT_DUP, A16_FAULT_NUL, A16_FAULT_OPEN, A16_RAW, A16_FAULT_TRUNC };
 extern "C" {
 const unsigned char *a16_bytes(size_t *n);   // the bytes of the file as stored on the simulated device
 int a16_fault(long *arg);                    // device fault of this run
